@@ -158,6 +158,36 @@ theorem C18_downstream (f : Facts) :
     rw [hd] at hg
     simp [evaluate, hg, depLoop]
 
+/-- C18, output inside the window: when the body of a target runs and writes `chunks` (any chunking), what the
+target delivers is `evaluating`, then exactly the lines of the concatenated output, each once and in order, then
+exactly one of `succeeded` / `failed` — and the writer is left empty for the next build; when the body does not
+run (up to date, dry run, failed dependency or up-to-date check) no line is delivered at all. -/
+theorem C18_output (f : Facts) (chunks : List (List UInt8)) :
+    (bodyRuns f = true →
+      ∃ last, (last = Ev.succeeded ∨ last = Ev.failed) ∧
+        evaluateOut f [] chunks =
+          ([Out.ev .evaluating] ++ (LineWriter.splitLines chunks.flatten).map Out.print ++ [Out.ev last],
+           (evaluate f).2, [])) ∧
+    (bodyRuns f = false →
+      evaluateOut f [] chunks = ((evaluate f).1.map Out.ev, (evaluate f).2, []) ∧
+      ∀ o ∈ (evaluateOut f [] chunks).1, ∀ l, o ≠ Out.print l) := by
+  constructor
+  · intro hb
+    have hl := LineWriter.C18_lines chunks
+    simp only [evaluateOut, hb, ↓reduceIte, hl.1, hl.2]
+    simp only [evaluate, bodyRuns, depLoop_eq] at hb ⊢
+    cases hff : firstFailed f.deps with
+    | some d => cases d <;> simp [hff] at hb
+    | none =>
+      simp only [hff] at hb ⊢
+      cases h1 : f.upToDateErr <;> cases h2 : f.skip <;> cases h3 : f.dryRun <;> simp [h1, h2, h3] at hb ⊢
+      cases f.bodyOk <;> cases f.saveOk <;> simp
+  · intro hb
+    simp only [evaluateOut, hb, Bool.false_eq_true, ↓reduceIte, true_and]
+    intro o ho l
+    obtain ⟨e, _, rfl⟩ := List.mem_map.mp ho
+    simp
+
 /-- C18: run-done is delivered exactly once, after every event of the run (in particular after the requested
 target's last event), and carries the error `Run` returns, which is the requested target's result. -/
 theorem C18_rundone {L : Type} [DecidableEq L] (body : List (RunEv L) × Bool)
